@@ -18,7 +18,7 @@ DECIDING = ["abort_points", "line_events"]
 MIN_DECIDED_RATIO = 0.65  # an abort point is undecided when the member never reaches it: outside its scan, or (projection kind) on a line that does not match
 RULE = (
     "for generated groups of 1-4 members and files of 2-8 lines: every (member, line) abort point x fault kind {argument rejected, "
-    "exception inside the function, failure reported as a chained exception, failure outside the match part (line too short for the member's collect() projection), failure of a last() component on a blank final record} x the six run methods, each followed by one normal run on the same instance. Non-trivial: every case "
+    "exception inside the function, failure reported as a chained exception, failure outside the match part (line too short for the member's collect() projection), failure of a last() component on a blank final record, failing component followed on the same line by a firing skip() and one more component} x the six run methods, each followed by one normal run on the same instance. Non-trivial: every case "
     "(an abort happens in each); distinct = distinct (group size, member index, line, kind, method, member skeletons)."
 )
 ASSUMPTIONS = [
@@ -37,8 +37,11 @@ FAULT_COMP = {
     # a failure on a record without cells: the file ends in a blank line and a last() component fails there
     "blank-last": ["when", ["fn", "last", [], []], ["assign", "zz9", None, [], ["fn", "mod", [["int", 7], ["int", 0]], []]]],
 }
-FAULT_CELL = {"argtype": "zz", "pyexc": "0", "chained": "not-a-date", "projection": None, "blank-last": None}
-FAULT_COL = {"argtype": 4, "pyexc": 4, "chained": 5, "projection": 5, "blank-last": None}
+# the failing component is followed, on the same line, by a skip() that fires there and by one more component
+FAULT_COMP["then-skip"] = FAULT_COMP["argtype"]
+THEN_SKIP = [["fn", "skip", [["eq", ["hdr", "4"], ["str", "zz"]]], []], ["assign", "sk9", None, [], ["fn", "count_lines", [], []]]]
+FAULT_CELL = {"argtype": "zz", "pyexc": "0", "chained": "not-a-date", "projection": None, "blank-last": None, "then-skip": "zz"}
+FAULT_COL = {"argtype": 4, "pyexc": 4, "chained": 5, "projection": 5, "blank-last": None, "then-skip": 4}
 
 
 def plan(tier, seed):
@@ -86,7 +89,10 @@ def check_abort(case, agg):
     progs = [dict(p) for p in members]
     fm = dict(progs[i])
     comps = list(fm["comps"])
-    comps.insert(case["pos"] % (len(comps) + 1), FAULT_COMP[kind])
+    at = case["pos"] % (len(comps) + 1)
+    comps.insert(at, FAULT_COMP[kind])
+    if kind == "then-skip":
+        comps[at + 1 : at + 1] = THEN_SKIP
     fm["comps"] = comps
     progs[i] = fm
     cps.reset_sandbox()
@@ -113,6 +119,17 @@ def check_abort(case, agg):
         # projecting member placed last aborts the run at the intended point
         return "undecided", None
     if exc is None:
+        if not reached and kind in ("argtype", "pyexc", "chained", "then-skip") and not (kind == "chained" and line == 0):
+            # (date() lets a header line pass: 'chained' on line 0 is not a fault point)
+            # no exception was seen anywhere: did the faulting member have the fault line put to its match part all the
+            # same? (its components are all evaluated on every line it considers: no control functions, AND mode)
+            try:
+                mine = [r_.csvpath for r_ in cs.results_manager.get_named_results("grp") if r_.csvpath.identity == f"m{i}"]
+            except Exception:  # noqa
+                mine = []
+            if mine and any(ev["id"] == id(mine[0]) and ev["pln"] == line and ev["considered"] for ev in rec.lines):
+                w["fault_line_was_matched_by_the_member"] = True
+                return "exception-swallowed", w
         if not reached:
             return "undecided", None
         return "exception-swallowed", w
@@ -231,7 +248,7 @@ def cases_for_group(seed, shard, gi, methods):
         k += 1
         yield {"members": members, "rows": rows, "member": i, "line": nlines, "kind": "blank-last", "method": methods[k % len(methods)], "pos": 99, "follow": k}
         for line in range(0, nlines):
-            for kind in ("argtype", "pyexc", "chained", "projection"):
+            for kind in ("argtype", "pyexc", "chained", "projection", "then-skip"):
                 method = methods[k % len(methods)]
                 if kind == "projection":
                     # only the methods that hand matched lines on through the member's projection can abort there
